@@ -265,7 +265,7 @@ impl<A, C: Clock, F: Filter, R: Rng, S: PtpInstanceStateMutex> Port<'_, InBmca, 
                         }
                     }
                 } else if self.multiport_disable.is_some() {
-                    if !matches!(self.port_state, PortState::Passive) {
+                    if !matches!(self.port_state, PortState::Passive | PortState::Faulty) {
                         self.set_forced_port_state(PortState::Passive);
                     }
                 } else {
